@@ -37,6 +37,11 @@ META = {
         "on the live market the sqrt price derived from the bar's price must be within one tick of the exact root "
         "(finer accuracy of the helper is C06's subject); with tick=t it must be the tick's integer ratio",
         "offers are Decimals in [0, 1e12] tokens; negative offers and float offers are not generated",
+        "the exact MIN/MAX tick (+-887272) as a range end is given to the math functions (get_liquidity, get_amounts, "
+        "V3CoreLib), which know no spacing; through UniLpMarket only multiples of the pool's tick spacing are "
+        "generated, so 'touching MIN/MAX' is the pool's lowest/highest usable tick (the exact +-887272 for the 0.01% "
+        "tier, whose spacing here is 2): as in the protocol, a position end that is not a multiple of the spacing is "
+        "rejected by _add_liquidity_by_tick or moved by trim_tick, and neither is this property's subject",
     ],
 }
 NSHARDS = 16
@@ -62,25 +67,27 @@ def F(x):
 
 
 # ------------------------------------------------------------------------------------------------ generators
-def gen_range(rng, sp=None, center=None):
-    """(tickA, tickB, kind) with tickA < tickB, both multiples of the spacing (or the exact MIN/MAX tick)."""
+def gen_range(rng, sp=None, center=None, exact_ends=True):
+    """(tickA, tickB, kind) with tickA < tickB, both multiples of the spacing (or, with exact_ends, the exact MIN/MAX
+    tick: the pure math functions know no spacing; a pool of spacing sp only has positions on multiples of sp, so for
+    it "touching MIN/MAX" means its lowest/highest usable tick)."""
     sp = sp or rng.choice(SPACINGS)
     lo_m = -(-O.MIN_TICK // sp) * sp
     hi_m = (O.MAX_TICK // sp) * sp
     k = rng.random()
     if k < 0.07:
-        if sp == 1 or rng.random() < 0.5:
+        if sp == 1 or rng.random() < 0.5 or not exact_ends:
             return lo_m, hi_m, "full"
         return O.MIN_TICK, O.MAX_TICK, "full"
     widths = {"one": 1, "narrow": rng.randint(2, 20), "medium": rng.randint(21, 2000), "wide": rng.randint(2001, 2001 + 400000 // sp)}
     wk = rng.choice(["one", "one", "narrow", "narrow", "medium", "medium", "wide"])
     width = widths[wk] * sp
     if k < 0.17:
-        ta = lo_m if (sp == 1 or rng.random() < 0.6) else O.MIN_TICK
+        ta = lo_m if (sp == 1 or rng.random() < 0.6 or not exact_ends) else O.MIN_TICK
         tb = min(hi_m, lo_m + width)
         return ta, tb, "touch-min"
     if k < 0.27:
-        tb = hi_m if (sp == 1 or rng.random() < 0.6) else O.MAX_TICK
+        tb = hi_m if (sp == 1 or rng.random() < 0.6 or not exact_ends) else O.MAX_TICK
         ta = max(lo_m, hi_m - width)
         return ta, tb, "touch-max"
     if center is None:
@@ -580,7 +587,7 @@ def live_case(mon, rng, c, tier):
         center = O.MIN_TICK + rng.randint(300, 30000)
     else:
         center = O.MAX_TICK - rng.randint(300, 30000)
-    ta, tb, rkind = gen_range(rng, sp, center)
+    ta, tb, rkind = gen_range(rng, sp, center, exact_ends=False)
     n = 5
     w = W.UniWorld(
         rng, n=n, d0=d0, d1=d1, token0_is_quote=q0, fee=fee, path="anchors", anchors=[ta, tb], center=center,
@@ -613,7 +620,7 @@ def live_case(mon, rng, c, tier):
         if rng.random() < 0.6:
             lo, up, rk = ta, tb, rkind
         else:
-            lo, up, rk = gen_range(rng, sp, cur_tick + rng.choice([0, 0, 1, -1]) * rng.randint(0, 3000) * sp)
+            lo, up, rk = gen_range(rng, sp, cur_tick + rng.choice([0, 0, 1, -1]) * rng.randint(0, 3000) * sp, exact_ends=False)
         sa, sb = O.sqrt_ratio_at_tick(lo), O.sqrt_ratio_at_tick(up)
         variant = rng.choice(["default", "default", "default", "sqrt", "sqrt", "tick", "by-price"])
         if variant == "by-price" and (up - lo < 3 * sp or lo <= lo_m or up >= hi_m):
@@ -731,6 +738,10 @@ def _round_trip(mon, rng, Dr, w, m, fz, bal, to_pair, variant, removal, lo, up, 
             mon.violation("uniswap", op, "position-liquidity", "", f"position holds {held}, had {held_before}, minted {L}; {ctx2()}")
         mon.cls(f"live/{op}/{variant}/{reg}/side{side}" + ("/L=0" if L == 0 else ""))
         mon.cls(f"live-price/{pc}")
+        if plo - sp < O.MIN_TICK or pup + sp > O.MAX_TICK:  # lowest / highest tick a pool of this spacing can use
+            mon.cls("live-range-touches-" + ("both" if (plo - sp < O.MIN_TICK and pup + sp > O.MAX_TICK) else ("min" if plo - sp < O.MIN_TICK else "max")))
+            if plo == O.MIN_TICK or pup == O.MAX_TICK:
+                mon.cls("live-range-on-exact-MIN/MAX-tick")
         if L > 0:
             mon.nt(f"l/{variant}/{rk}/{pc}/{d0}-{d1}/{ori}/s{side}/{mode_key}/{removal}")
             mon.sample(
@@ -890,7 +901,8 @@ def floors(merged, tier):
         ("price/in-", 500), ("price/far-below", 50), ("price/far-above", 50), ("pure/inside/side0", 100), ("pure/inside/side1", 100),
         ("range-touches-min", 50), ("range-touches-max", 50), ("range-touches-both", 30), ("offer-with-sub-wei-fraction", 100),
         ("live/remove/full", 20), ("live/remove/part2", 5), ("live/remove/merged-second", 5), ("live/remove/no-collect", 5),
-        ("live-price/on-", 5), ("live-price/in-", 30),
+        ("live-price/on-", 5), ("live-price/in-", 30), ("live-price/far-", 10), ("live-range-touches-m", 20),
+        ("live-range-touches-both", 5), ("live-range-on-exact-MIN/MAX-tick", 5), ("live/merged-second-add", 5),
     ):
         if tot(prefix) < n:
             out.append(f"class {prefix}* observed {tot(prefix)} times (< {n})")
